@@ -1,6 +1,8 @@
 package executor
 
 import (
+	"encoding/json"
+
 	"github.com/vektah/gqlparser/v2/ast"
 
 	"github.com/buildbuildio/pebbles/planner"
@@ -138,7 +140,8 @@ func (q *vFixedQueryer) Query(in []*requests.Request) ([]map[string]interface{},
 // Whatever order the answers arrive in, the client gets the object.
 func VerifRootMergeOrder() {
 	n := 2 + verifChoice("services", verifParam("extra", 1))
-	owner := verifChoice("owner", n)
+	owner := verifChoice("owner", n+1) // n: nobody owns it
+	other := verifChoice("other", 3)
 	plan := &planner.QueryPlan{}
 	qs := map[string]queryer.Queryer{}
 	for i := 0; i < n; i++ {
@@ -147,6 +150,15 @@ func VerifRootMergeOrder() {
 		var node interface{}
 		if i == owner {
 			node = map[string]interface{}{"f": "value"}
+		} else {
+			// a service that does not own the entity answers null; one that knows the id under another
+			// type answers an object without the fragment's fields (empty, or with the helper id only)
+			switch other {
+			case 1:
+				node = map[string]interface{}{}
+			case 2:
+				node = map[string]interface{}{"id": "x"}
+			}
 		}
 		qs[url] = &vFixedQueryer{url: url, res: map[string]interface{}{"node": node}}
 	}
@@ -154,7 +166,12 @@ func VerifRootMergeOrder() {
 	res, err := ex.Execute(&ExecutionContext{QueryPlan: plan, Request: &requests.Request{}, Queryers: qs})
 	verifAssert(err == nil, "healthy services yield no error")
 	nodeRes, _ := res["node"].(map[string]interface{})
-	verifAssert(nodeRes != nil && nodeRes["f"] == "value", "the answer of the service that knows the entity reaches the client, whichever answer arrives last")
+	if owner < n {
+		verifAssert(nodeRes != nil && nodeRes["f"] == "value", "the answer of the service that knows the entity reaches the client, whichever answer arrives last")
+	}
+	// whatever the answers are, the merged result is the same under every arrival order
+	ob, _ := json.Marshal(res)
+	verifOutcome("services="+verifItoa(n)+" owner="+verifItoa(owner)+" other="+verifItoa(other), string(ob))
 	verifReach("root answers merged")
 }
 
